@@ -94,7 +94,9 @@ def st_bus(tier):
                 ops.append(["alloc", name, draw(sizes), draw(st.booleans())])
             elif k in (6, 7):
                 how = draw(st.sampled_from(["named", "fixed", "alloc", "anon"]))
-                ops.append(["slave", None if how == "anon" else name, how, draw(origin(aw)), draw(sizes), draw(st.booleans())])
+                ops.append(["slave", None if how == "anon" else name, how, draw(origin(aw)), draw(sizes), draw(st.booleans()),
+                            # a region without address decoding (decode=False: its slave answers every address) - legal only alone
+                            how == "fixed" and draw(st.integers(0, 7)) == 0])
             elif k == 8:
                 ops.append(["master", draw(st.one_of(st.none(), st.none(), st.sampled_from(["cpu", "dma", "m0", "master0", "master1", "master2", "master3"])))])
             else:
@@ -141,14 +143,15 @@ def _apply_bus(bus, op, log):
         bus.add_region(name, SoCRegion(origin=None, size=size, cached=cached))
         return {"dup_name": dup, "allocated": name, "cached": cached}
     if kind == "slave":
-        _, name, how, origin, size, cached = op
+        _, name, how, origin, size, cached = op[:6]
+        nodecode = len(op) > 6 and bool(op[6])
         dupslave = name is not None and name in bus.slaves
         if how == "named":
             region = None
         elif how == "alloc":
             region = SoCRegion(origin=None, size=size, cached=cached)
         else:
-            region = SoCRegion(origin=origin, size=size, cached=cached)
+            region = SoCRegion(origin=origin, size=size, cached=cached, decode=not nodecode)
         dup = region is not None and name is not None and (name in bus.regions or name in bus.io_regions)
         nbefore = len(bus.slaves)
         bus.add_slave(name=name, slave=_iface(bus), region=region)
@@ -230,7 +233,7 @@ def _eval_decoder(pred, adr_w, value):
     return int(bool(ev.eval(e)))
 
 
-def _finalize_check(bus, case, extra_addrs):
+def _finalize_check(bus, case, extra_addrs, good=()):
     """Decoders of all slave regions: exact accept set on boundary + generated addresses."""
     B = case["dw"] // 8
     adr_w = case["aw"] - (B.bit_length() - 1)
@@ -246,8 +249,23 @@ def _finalize_check(bus, case, extra_addrs):
             return "rejected"          # unaligned / sub-word region rejected at finalize: legal
         if r.origin % r.size_pow2:
             return "unaligned-built", "region %s origin %#x not aligned on %#x but a decoder was built" % (n, r.origin, r.size_pow2)
-    if len(bus.slaves) > 1 and any(not bus.regions[n].decode for n in bus.slaves):
-        return "rejected"
+    if any(not bus.regions[n].decode for n in bus.slaves):
+        if len(bus.slaves) == 1:
+            return None                # a single slave without decoding: answers everything by design
+        # several slaves, one of them without decoding: the bus itself decides at finalisation (on a replayed copy, which
+        # gets a master if it has none - the check sits on the path that builds the interconnect)
+        b2 = _new_bus(case)
+        try:
+            for g in good:
+                _apply_bus(b2, g, [])
+            if not b2.masters:
+                b2.add_master(name="probe", master=_iface(b2))
+            b2.do_finalize()
+        except _rejections():
+            env.restore_stderr()
+            return "rejected"
+        finally:
+            env.restore_stderr()
     words = set()
     for n in bus.slaves:
         r = bus.regions[n]
@@ -289,7 +307,7 @@ def run_bus(case):
         if op[0] == "finalize":
             if not bus.slaves:
                 continue
-            res = _finalize_check(bus, case, op[1])
+            res = _finalize_check(bus, case, op[1], good)
             if res == "rejected":
                 cls.add("finalize-rejected")
                 rejections += 1
